@@ -88,7 +88,7 @@ TEXTS = {
                   'subgraph incl. the virtual INPUT/OUTPUT ops. Correspondences K and P tie both selection loops to '
                   '/repo; oracles compare the selection sets computed with the library\'s own scope functions and '
                   'run quantize(calibrate()) for missing statistics, over anchored and ;-containing regexes.'),
-        'note': 'No-missing-statistics executed, not proved. Axioms: none.',
+        'note': 'No-missing-statistics: both halves proved (calibration coverage; error only for an absent runtime entry), composition executed. Axioms: none.',
     },
     'C17': {
         'level': ('Theorems over ALL real ranges min<=max, bit widths >= 2, both symmetries (ideal arithmetic, Flocq '
